@@ -5,7 +5,7 @@
     are Model/Pred.v (tied to the Go code by the correspondence run).
     [FR x] is the real number the float64 [x] denotes; [detR a b c] the exact determinant. *)
 From Coq Require Import ZArith Reals Floats Bool.
-From Geo Require Import Base.GoPrim Base.F64 Base.Exact Gen.R3 Gen.S2Pred Model.Pred Proofs.C02_Exact Proofs.C02_Float Proofs.C02_SoS Proofs.C02_SoSGlobal Proofs.C02_RelErr Proofs.C02_TriageDet Proofs.C02_Robust.
+From Geo Require Import Base.GoPrim Base.F64 Base.Exact Gen.R3 Gen.S2Pred Model.Pred Proofs.C02_Exact Proofs.C02_Float Proofs.C02_SoS Proofs.C02_SoSGlobal Proofs.C02_RelErr Proofs.C02_TriageDet Proofs.C02_Robust Proofs.C02_IsUnit.
 Local Open Scope R_scope.
 
 (** exact stage ------------------------------------------------------------------------- *)
@@ -234,3 +234,15 @@ Theorem exact_sign_answers_are_realisable : forall pts,
     ~ (0 < t1 /\ 0 < t2 /\ 0 < t3)%Z /\ ~ (t1 < 0 /\ t2 < 0 /\ t3 < 0)%Z.
 Proof. exact chirotope_gp. Qed.
 Print Assumptions exact_sign_answers_are_realisable.
+
+(** the library's own unit-length test implies the guard [unit_pt] (finiteness included): closed *)
+Theorem isunit_implies_unit_guard : forall p, r3_Vector_IsUnit (s2_Point_Vector p) = true -> unit_pt p.
+Proof. exact isunit_unit_pt. Qed.
+Print Assumptions isunit_implies_unit_guard.
+
+Theorem triage_sign_never_wrong_on_isunit_points : forall a b c,
+  r3_Vector_IsUnit (s2_Point_Vector a) = true -> r3_Vector_IsUnit (s2_Point_Vector b) = true ->
+  r3_Vector_IsUnit (s2_Point_Vector c) = true ->
+  s2_triageSign a b c <> 0%Z -> s2_triageSign a b c = sgnR (detR a b c).
+Proof. intros a b c Ha Hb Hc. apply triage_sound_closed; now apply isunit_unit_pt. Qed.
+Print Assumptions triage_sign_never_wrong_on_isunit_points.
